@@ -729,8 +729,9 @@ func (e *Enc) callMod(c *ssa.CallCommon) KeySet {
 	tmp := &modInfo{direct: KeySet{}, callees: map[*ssa.Function]bool{}, owner: e.fn}
 	if fc := e.calleeContract(c); fc != nil && fc.HasAssigns {
 		ks := KeySet{}
+		_, _, cfn := e.calleeName(c)
 		for _, a := range fc.Assigns {
-			for _, k := range e.assignKeys(fc, a) {
+			for _, k := range e.assignKeysTyped(fc, cfn, a) {
 				ks.Add(k)
 			}
 		}
